@@ -2,7 +2,10 @@ package gen
 
 import (
 	"bytes"
+	"fmt"
 	"hash/fnv"
+	"strings"
+	"sync"
 	"testing/iotest"
 
 	"github.com/tdewolff/parse/v2"
@@ -81,7 +84,16 @@ func Supply(src []byte, tail string) (input *parse.Input, how string, check func
 	h.Write([]byte{1})
 	cp := append([]byte(nil), src...)
 	none := func(bool) (bool, string) { return true, "" }
-	switch h.Sum32() % 8 {
+	switch h.Sum32() % 10 {
+	case 8:
+		// a reader the caller has read a header from (a byte order mark, a first line): the input is what is left
+		r := bytes.NewReader(append([]byte("\xef\xbb\xbf#!header\n"), cp...))
+		r.Seek(12, 0)
+		return parse.NewInput(r), "bytes.Reader behind a header", none
+	case 9:
+		r := strings.NewReader("HEADER" + string(cp))
+		r.Read(make([]byte, 6))
+		return parse.NewInput(r), "strings.Reader behind a header", none
 	case 0:
 		return parse.NewInputString(string(src)), "string", none
 	case 1:
@@ -99,4 +111,42 @@ func Supply(src []byte, tail string) (input *parse.Input, how string, check func
 		}
 		return ok, rest
 	}
+}
+
+// Concurrently evaluates f(0..n-1) one after the other and then all at once, each in a goroutine of its own behind a
+// barrier, rounds times over: a function of its argument alone gives the same answers both ways. It returns the index of
+// the first call whose concurrent answer differs (-1 if none) with both answers. Shared scratch storage in the library
+// (a package-level buffer, a cached lexer, a memo that is not synchronised) shows as a difference; so it does under
+// GOMAXPROCS=1, where goroutines are still preempted.
+func Concurrently(n, rounds int, f func(i int) string) (bad int, alone, together string) {
+	want := make([]string, n)
+	for i := range want {
+		want[i] = f(i)
+	}
+	got := make([]string, n)
+	for r := 0; r < rounds; r++ {
+		var wg sync.WaitGroup
+		start := make(chan struct{})
+		for i := 0; i < n; i++ {
+			wg.Add(1)
+			go func(i int) {
+				defer wg.Done()
+				defer func() {
+					if p := recover(); p != nil {
+						got[i] = fmt.Sprintf("panic: %v", p)
+					}
+				}()
+				<-start
+				got[i] = f(i)
+			}(i)
+		}
+		close(start)
+		wg.Wait()
+		for i := range want {
+			if got[i] != want[i] {
+				return i, want[i], got[i]
+			}
+		}
+	}
+	return -1, "", ""
 }
